@@ -617,6 +617,76 @@ def smoothing_cases(run, exprs, descr):
         run.count("median-filter-direct")
 
 
+def pipeline_history_cases(run):
+    """a pipeline that smooths the height, then one that does not, on the
+    same curve object: every step of the second pipeline starts from the
+    RECORDED columns (tip position = recorded height + force / k), and the
+    columns no step of it owns are the recorded ones"""
+    base = ["compute_tip_position", "correct_force_offset",
+            "correct_tip_offset"]
+    firsts = [base + ["smooth_height"],
+              ["compute_tip_position", "correct_split_approach_retract",
+               "smooth_height"]]
+    seconds = [["compute_tip_position"], base,
+               ["compute_tip_position", "correct_force_offset"]]
+    curves_ = []
+    for fn in ("fmt-jpk-fd_spot3-0192.jpk-force",):
+        try:
+            curves_.append(("recorded:" + fn[:20],) + recorded(fn, 4))
+        except BaseException:
+            run.count("pipeline-history-data-missing")
+    cols_s, k_s = synthetic("hertz_para", 61, n_app=160, n_ret=80)
+    rs = np.random.default_rng(61)
+    cols_s = dict(cols_s)
+    for c_ in ("height (measured)", "height (piezo)"):
+        if c_ in cols_s:
+            q_ = float(np.ptp(cols_s[c_])) / cols_s[c_].size
+            cols_s[c_] = cols_s[c_] + rs.normal(0, 3 * q_, cols_s[c_].size)
+    curves_.append(("synthetic:noisy-height", cols_s, k_s))
+    for cname, cols, k in curves_:
+        for p1 in firsts:
+            for p2 in seconds:
+                key = "pipeline-history:" + common.sha([cname, p1, p2])[:16]
+                run.case({"curve": cname, "first": p1, "second": p2},
+                         kind="pipeline-history")
+                try:
+                    with warnings.catch_warnings():
+                        warnings.simplefilter("ignore")
+                        fresh = curves.make_indentation(cols, k=k)
+                        fresh.apply_preprocessing(list(p2))
+                        a = curves.make_indentation(cols, k=k)
+                        a.apply_preprocessing(list(p1))
+                        smoothed = any(
+                            bits(np.asarray(a[c_])) != bits(np.asarray(cols[c_]))
+                            for c_ in ("height (measured)", "height (piezo)")
+                            if c_ in cols)
+                        a.apply_preprocessing(list(p2))
+                    if not smoothed:
+                        run.count("pipeline-history-smoothing-was-identity")
+                    why = None
+                    for c_ in fresh.columns:
+                        if c_ not in a.columns or bits(np.asarray(a[c_])) != \
+                                bits(np.asarray(fresh[c_])):
+                            why = (f"column '{c_}' differs from the second "
+                                   "pipeline on a fresh curve")
+                            break
+                    if why is None:
+                        tp = np.asarray(a["tip position"])
+                        hm = np.asarray(cols["height (measured)"])
+                        f_ = np.asarray(cols["force"])
+                        if "correct_tip_offset" not in p2 and \
+                                "correct_force_offset" not in p2 and \
+                                bits(tp) != bits(hm + f_ / k):
+                            why = ("tip position is not recorded height + "
+                                   "force / k")
+                except BaseException as e:
+                    why = f"raised {type(e).__name__}: {e}"
+                if why:
+                    run.failing(SITE, key, f"{cname}: {p1}, then {p2}: {why}",
+                                payload={"kind": "rerun"},
+                                theorem="C07_tip_position")
+
+
 def check(run):
     run.sources = common.source_digests(["src/nanite/preproc.py",
                                          "src/nanite/smooth.py",
@@ -657,6 +727,7 @@ def check(run):
             plist = [plist[(2 * i) % 6], plist[(2 * i + 1) % 6]]
         run_curve(run, name, cols, k, plist, exprs, descr)
     smoothing_cases(run, exprs, descr)
+    pipeline_history_cases(run)
     fits.eval_bool_cases(run, "c07_steps", exprs, descr, head=HEAD, chunk=8)
     run.extra["curves"] = [c[0] for c in cat]
     run.rule = ("each curve of the catalogue (synthetic from every shipped "
